@@ -57,6 +57,7 @@ func Main() int {
 	list := flag.Bool("list", false, "list properties")
 	nomut := flag.Bool("no-mutants", false, "thorough tier without the sensitivity suite")
 	onlyMutants := flag.String("only-mutant", "", "run only this mutant of the sensitivity suite (debugging)")
+	onlyBenign := flag.Bool("only-benign", false, "thorough tier: run only the behaviour-preserving variants (debugging)")
 	flag.Parse()
 	if *list {
 		for _, id := range IDs() {
@@ -199,7 +200,7 @@ func Main() int {
 	benign := map[string]bool{}
 	if !*nomut {
 		for _, m := range p.Mutants {
-			if *onlyMutants == "" || *onlyMutants == m.Name {
+			if (*onlyMutants == "" || *onlyMutants == m.Name) && !*onlyBenign {
 				mutants = append(mutants, m)
 			}
 		}
